@@ -18,6 +18,8 @@ let behaviour_of (r : M.request) : M.behaviour =
   else if starts "/k/" p then M.BReadK (n_of_int (num (str_after "/k/" p)))
   else if starts "/first" p then M.BFirst
   else if starts "/hold" p || starts "/slow/" p then M.BHold
+  else if starts "/errk/" p then M.BErr
+  else if starts "/closer" p || starts "/closeka" p then M.BClose
   else if starts "/errafter" p then M.BErrAfter
   else if starts "/err" p then M.BErr
   else if starts "/close" p then M.BClose
